@@ -64,6 +64,7 @@ type c05Driver struct {
 	lateCmt  int
 	exclF6   int
 	knownF6  bool
+	skips    int // consecutive rejected action draws (see skip)
 	stepping *c05Ev
 }
 
@@ -99,6 +100,21 @@ func (d *c05Driver) arm() {
 }
 
 func (d *c05Driver) room() bool { return d.v.Pending() < d.v.Cap()-2 }
+
+// skip rejects the drawn action - unless many draws in a row were rejected already: rapid gives up
+// ("can't find a valid action", reported as a failure) after 100 consecutive rejected draws, and in
+// the terminal states of this machine (closed, generation joined, queue empty) "drain" is the only
+// enabled action out of ten, so 100 misses in a row do happen once in a few million cases. The step
+// is then spent on a harmless drain instead.
+func (d *c05Driver) skip(rt *rapid.T, why string) {
+	d.skips++
+	if d.skips > 25 {
+		d.skips = 0
+		d.takeNotes(rt, 1)
+		return
+	}
+	rt.Skip(why)
+}
 
 // --- receive-path commits -------------------------------------------------------------------
 
@@ -226,7 +242,8 @@ func TestC05Supervisor(t *testing.T) {
 		}
 		step := func(rt *rapid.T) {
 			if d.v.Pending() == 0 {
-				rt.Skip("empty queue")
+				d.skip(rt, "empty queue")
+				return
 			}
 			e := d.queue[0]
 			d.queue = d.queue[1:]
@@ -264,16 +281,19 @@ func TestC05Supervisor(t *testing.T) {
 		rt.Repeat(map[string]func(*rapid.T){
 			"tcpUp": func(rt *rapid.T) {
 				if d.genLive || d.st != nc || !d.room() {
-					rt.Skip("generation live")
+					d.skip(rt, "generation live")
+					return
 				}
 				for _, e := range d.queue {
 					if e.kind != hsms.VerifEvClose {
-						rt.Skip("A1: events of the previous generation still queued")
+						d.skip(rt, "A1: events of the previous generation still queued")
+						return
 					}
 				}
 				if d.closeInjected {
 					if d.lateGens >= 1 {
-						rt.Skip("one late generation at most")
+						d.skip(rt, "one late generation at most")
+						return
 					}
 					d.lateGens++
 					d.stale++
@@ -295,19 +315,22 @@ func TestC05Supervisor(t *testing.T) {
 			},
 			"selectCommit": func(rt *rapid.T) {
 				if !d.genLive || !d.room() {
-					rt.Skip("no receive path")
+					d.skip(rt, "no receive path")
+					return
 				}
 				d.commitSelected(rt, "recv:")
 			},
 			"selectLost": func(rt *rapid.T) {
 				if !d.genLive || !d.room() || !d.canSelectLost() {
-					rt.Skip("no receive path")
+					d.skip(rt, "no receive path")
+					return
 				}
 				d.commitSelectLost(rt, "recv:")
 			},
 			"fireT7": func(rt *rapid.T) {
 				if !d.genLive || !d.room() {
-					rt.Skip("no generation")
+					d.skip(rt, "no generation")
+					return
 				}
 				var cand []*c05Arm
 				for _, a := range d.arms {
@@ -316,7 +339,8 @@ func TestC05Supervisor(t *testing.T) {
 					}
 				}
 				if len(cand) == 0 {
-					rt.Skip("no armed T7")
+					d.skip(rt, "no armed T7")
+					return
 				}
 				a := cand[rapid.IntRange(0, len(cand)-1).Draw(rt, "arm")]
 				a.fired = true
@@ -326,7 +350,8 @@ func TestC05Supervisor(t *testing.T) {
 			},
 			"tcpDown": func(rt *rapid.T) {
 				if !d.genLive || !d.room() {
-					rt.Skip("no generation")
+					d.skip(rt, "no generation")
+					return
 				}
 				d.v.Inject(hsms.VerifEvDisconnect)
 				d.queue = append(d.queue, c05Ev{kind: hsms.VerifEvDisconnect, gen: d.gen})
@@ -334,7 +359,8 @@ func TestC05Supervisor(t *testing.T) {
 			},
 			"close": func(rt *rapid.T) {
 				if d.closeInjected || !d.room() || rapid.IntRange(0, 3).Draw(rt, "reallyClose") != 0 {
-					rt.Skip("already closing")
+					d.skip(rt, "already closing")
+					return
 				}
 				d.closeInjected = true
 				d.v.Inject(hsms.VerifEvClose)
@@ -346,7 +372,8 @@ func TestC05Supervisor(t *testing.T) {
 				// many select/deselect rounds with no notification drained in between: forces the
 				// drop-oldest coalescing of the 16-slot notification queue
 				if !d.genLive || d.closed || d.v.Pending() > 8 {
-					rt.Skip("no receive path")
+					d.skip(rt, "no receive path")
+					return
 				}
 				n := rapid.IntRange(6, 14).Draw(rt, "rounds")
 				for i := 0; i < n; i++ {
@@ -361,7 +388,8 @@ func TestC05Supervisor(t *testing.T) {
 			},
 			"join": func(rt *rapid.T) {
 				if !d.genLive || !(d.tearingDown || d.closed) {
-					rt.Skip("generation not ending")
+					d.skip(rt, "generation not ending")
+					return
 				}
 				d.genLive = false
 				d.logf("generation %d joined", d.gen)
@@ -370,6 +398,7 @@ func TestC05Supervisor(t *testing.T) {
 				d.takeNotes(rt, rapid.IntRange(1, 20).Draw(rt, "n"))
 			},
 			"": func(rt *rapid.T) {
+				d.skips = 0
 				d.checkState(rt, "action")
 				if d.v.Pending() != len(d.queue) {
 					d.fail(rt, "driver desync: real queue %d, mirror %d", d.v.Pending(), len(d.queue))
